@@ -46,20 +46,19 @@ Qed.
 
 End Steps.
 
-(* C08 and C07's last clause for the executable sync, with NO premise about links: nothing skipped => every kill
+(* C08 and C07's last clause for the executable sync, with NO premise about links: every kill
    state and the final state satisfy Good and Touched. *)
 Theorem kill_states_good_unconditional cfg S D a ans bits ex ft :
   unique_keys S -> wf_fs S -> unique_keys D -> wf_fs D ->
   let ls := list_fs now_far (excl_incl ex) normalize_unix S in
   let ld := list_fs now_far (excl_incl ex) normalize_unix D in
   let r := run_top cfg S D a ans bits ex ft in
-  r_skipped r = [] ->
   (forall s, In s (sync_kill_states now_far normalize_unix chunk_real cfg S (world D a []) ans bits ls ld ft) ->
      Good S D s /\ no_through (d_events s)) /\
   Good S D (r_dest r).
 Proof.
-  intros HuS HwS HuD HwD ls ld r Hsk.
-  pose proof (run_top_all_confined cfg S D a ans bits ex ft HuS HwS HuD HwD Hsk) as Hnt.
+  intros HuS HwS HuD HwD ls ld r.
+  pose proof (run_top_never_through cfg S D a ans bits ex ft HuS HwS HuD HwD) as Hnt.
   destruct (crash_safe now_far normalize_unix chunk_real chunk_real_ok cfg S (world D a []) ans bits ls ld ft eq_refl) as [G1 G2].
   split; [|apply G2; exact Hnt].
   intros s Hin.
